@@ -151,15 +151,20 @@ func init() {
 		c.set(opaqueStr(c.w.applyUF(c.s, "duration.string", []Value{c.args[0]}, "String", "string")))
 		return nil, false
 	}
-	I["(time.Duration).Seconds"] = func(c *icall) ([]*State, bool) {
-		d := c.args[0].(IntV)
-		if d.C {
-			c.set(FloatV{F: float64(d.N) / 1e9})
-		} else {
-			c.set(FloatV{Ns: d.T})
+	durFloat := func(div int64) intrinsic {
+		return func(c *icall) ([]*State, bool) {
+			d := c.args[0].(IntV)
+			if d.C {
+				c.set(FloatV{F: float64(d.N) / float64(div)})
+			} else {
+				c.set(FloatV{Ns: d.T, Div: div})
+			}
+			return nil, false
 		}
-		return nil, false
 	}
+	I["(time.Duration).Seconds"] = durFloat(1000000000)
+	I["(time.Duration).Minutes"] = durFloat(60000000000)
+	I["(time.Duration).Hours"] = durFloat(3600000000000)
 	I["time.Sleep"] = func(c *icall) ([]*State, bool) { return nil, false }
 
 	// ---------------- strings ----------------
@@ -426,6 +431,11 @@ func init() {
 			}
 			return nil, false
 		}
+		if s.FromInt != "" {
+			// the canonical decimal spelling of an integer parses back to it
+			c.setTuple(symInt(s.FromInt), IfaceV{})
+			return nil, false
+		}
 		// symbolic: either a parse error, or a value n with canonical(n) related to s through parse_int
 		ok := c.w.applyUF(c.s, "strconv.parse_ok", []Value{s}, "Bool", "bool")
 		n := c.w.applyUF(c.s, "strconv.parse_val", []Value{s}, "Int", "int")
@@ -618,7 +628,9 @@ func intToStr(n IntV) StrV {
 	if n.C {
 		return litStr(strconv.FormatInt(n.N, 10))
 	}
-	return opaqueStr("(ite (>= " + n.T + " 0) (str.from_int " + n.T + ") (str.++ \"-\" (str.from_int (- " + n.T + "))))")
+	r := opaqueStr("(ite (>= " + n.T + " 0) (str.from_int " + n.T + ") (str.++ \"-\" (str.from_int (- " + n.T + "))))")
+	r.FromInt = n.T
+	return r
 }
 
 func (c *icall) forkBool(cond string, ifTrue, ifFalse Value) ([]*State, bool) {
@@ -756,6 +768,18 @@ func (w *Worker) fmtValue(s *State, a Value, verb byte) StrV {
 		return opaqueStr(tIte(x.T, `"true"`, `"false"`))
 	case FloatV:
 		return litStr(fmt.Sprint(x.F))
+	}
+	if verb == 'x' {
+		// %x of bytes: an arbitrary lower-case hex string
+		v := w.E.freshVar(s, "hex", "String")
+		s.addPC("(str.in_re " + v + " (re.* (re.union (re.range \"0\" \"9\") (re.range \"a\" \"f\"))))")
+		if sl, ok := a.(SliceV); ok && sl.Obj != 0 {
+			if b, ok := s.Heap[sl.Obj].(BlobV); ok && b.Kind == "str" {
+				// two hex digits per byte: empty iff the bytes are empty
+				s.addPC(tEq(tEq(v, `""`), tEq(b.S.term(), `""`)))
+			}
+		}
+		return opaqueStr(v)
 	}
 	// anything else (slices, structs, pointers, errors with methods): an arbitrary string
 	return opaqueStr(w.E.freshVar(s, "fmt", "String"))
